@@ -182,6 +182,7 @@ class Target:
         self.shift = float(spec.get("shift", 0.0))
         self.nblobs = int(spec.get("blobs", 0))
         self.cut = None if spec.get("cut") is None else [float(c) for c in spec["cut"]]
+        self.dead_first = int(spec.get("dead_first", 0))
         self.corr = spec.get("corr")
         if self.corr is not None:
             self.cmu = np.array(self.corr["mu"], dtype=float)
@@ -208,6 +209,11 @@ class Target:
     def T(self, u):
         """Same arithmetic as prior_transform, without counting (used by oracles)."""
         return self.lo + self.w * np.asarray(u)
+
+    dead_first = 0  # stateful user model: the first `dead_first` evaluated points get -inf (e.g. a simulator that warms up)
+
+    def _maybe_dead(self, v, k):
+        return -math.inf if k < self.dead_first else v
 
     def logl_pure(self, x):
         """Pure scalar log-likelihood (no counting); x is a 1-D float array."""
@@ -246,7 +252,7 @@ class Target:
     def loglike(self, x):
         """Scalar callback."""
         self.n_points += 1
-        v = self.logl_pure(x)
+        v = self._maybe_dead(self.logl_pure(x), self.n_points - 1)
         if self.nblobs:
             return (v,) + self.blob_pure(x)
         return v
@@ -265,10 +271,19 @@ class Target:
         self.n_points += len(X)
         return np.array([self.logl_pure(row) * scale + offset for row in X])
 
+    def loglike_np(self, x):
+        """Scalar callback returning a numpy scalar / 1-element array instead of a Python float (same value)."""
+        self.n_points += 1
+        v = self.logl_pure(x)
+        return np.float64(v) if self.ret == "npfloat" else np.asarray(v) if self.ret == "arr0" else np.array([v])
+
+    ret = "pyfloat"
+
     def loglike_vec(self, X):
         X = np.asarray(X)
+        k0 = self.n_points
         self.n_points += len(X)
-        return np.array([self.logl_pure(row) for row in X])
+        return np.array([self._maybe_dead(self.logl_pure(row), k0 + i) for i, row in enumerate(X)])
 
     # -- oracles ----------------------------------------------------------------------
     def support_hi(self):
